@@ -207,6 +207,15 @@ func firstReport(s string) string {
 	return strings.Join(keep, " | ")
 }
 
+// crashSite: a process-fatal error of the workload: a detected race / concurrent map access, or
+// something else the runtime refuses to continue after (unlock of an unlocked mutex, ...).
+func crashSite(api, stderr string) string {
+	if strings.Contains(stderr, "DATA RACE") || strings.Contains(stderr, "concurrent map") {
+		return api + "/data-race"
+	}
+	return api + "/fatal-error"
+}
+
 func coqKVs(kvs []KV) string {
 	if len(kvs) == 0 {
 		return "[]"
@@ -264,8 +273,11 @@ func main() {
 	if c.Thorough() {
 		nFee, nEng, nCoq = 5000, 300, 200
 	}
-	if c.Mode == "search" {
-		nFee, nEng, nCoq = nFee*2, nEng*2, 0
+	if c.Mode == "search" { // looking for a concrete failing schedule after something stopped checking
+		nFee, nEng, nCoq = 300, 12, 0
+		if c.Thorough() {
+			nFee, nEng = 1200, 40
+		}
 	}
 	c.Stats.Rule = "FeeQuote/FeeQuotes: seeded randomized concurrent histories run under the Go race detector (2..16 goroutines, GOMAXPROCS in {1,2,4,16}, 8..47 operations per goroutine over AddQuote, Fee, UpdateExpiry, Expiry, Expired, MarshalJSON, UnmarshalJSON (direct and through encoding/json), FeeQuotes.AddMiner, AddMinerWithDefault, Quote, Fee, UpdateMinerFees on 1..3 shared FeeQuote objects that are also reachable through one shared FeeQuotes); every written value is unique and self-checking (torn values are recognisable); a history is distinct by its seed and non-trivial when at least one read returned a value written by another operation of the history. Engine: rounds of 2..16 goroutines sharing one interpreter.Engine, every transaction (signed P2PKH with 1..3 inputs incl. bad-signature, wrong-amount and legacy SIGHASH_SINGLE variants; script-only pairs) validated by exactly one goroutine, verdicts compared with the sequential ones. Plus the lock table and the package-variable scan re-extracted from the checkout and judged by the Coq checker."
 
@@ -276,7 +288,7 @@ func main() {
 	// ---- workload 1: fee quotes
 	fee := runChild(bin, "fee", c.Seed, nFee, c.Out)
 	if fee.crashed {
-		c.Violate("FeeQuote/data-race", "the race-instrumented workload died: "+firstReport(fee.stderr), map[string]interface{}{"at": fee.progress, "seed": c.Seed, "workload": "fee"})
+		c.Violate(crashSite("FeeQuote", fee.stderr), "the race-instrumented workload died: "+firstReport(fee.stderr), map[string]interface{}{"at": fee.progress, "seed": c.Seed, "workload": "fee"})
 		feeRaces++
 		feeFirst = firstReport(fee.stderr)
 	} else if !fee.res.RaceBuild {
@@ -341,7 +353,7 @@ func main() {
 	// ---- workload 2: one engine, distinct transactions
 	eng := runChild(bin, "engine", c.Seed, nEng, c.Out)
 	if eng.crashed {
-		c.Violate("Engine.Execute/data-race", "the race-instrumented workload died: "+firstReport(eng.stderr), map[string]interface{}{"at": eng.progress, "seed": c.Seed, "workload": "engine"})
+		c.Violate(crashSite("Engine.Execute", eng.stderr), "the race-instrumented workload died: "+firstReport(eng.stderr), map[string]interface{}{"at": eng.progress, "seed": c.Seed, "workload": "engine"})
 		engRaces++
 		engFirst = firstReport(eng.stderr)
 	}
